@@ -22,3 +22,11 @@ check(
     "Trusted: TLC + Bitwise/Json modules, observe_* projections. Float round trip only for dyadic literals below 2^30 (no reals in TLC; CPython float() fidelity is outside clikit). Boolean text form = 'true'/'false'. A regex '$' accepting a trailing newline in names is outside the explored alphabets.",
     "DESIGN.md#C07",
 )
+check(
+    "C06",
+    ["FormatBuilder", "FormatBuilderTrace"],
+    "TLA+ model of builder + format as a chain of levels (P: queries from listed elements, Unique / multi-last / no-required-after-optional; A: the builder's flags and accept/reject decisions) checked by TLC; all operation sequences up to Depth and simulated longer ones replayed on ArgsFormatBuilder/ArgsFormat, the full query table after each step decided by FormatBuilderTrace.tla",
+    "TLC checks the consistency invariants and 'a rejected addition changes nothing' on the complete state space of the model with one base level, and enumerates all 25^3 (quick) / 25^4 (thorough) operation sequences plus simulated ones of length 9 on two base levels; for each the real builder and builder.format are queried exhaustively (every name/position of the pool, both include_base values, all predicates and listings) after every step, and TLC decides that (a) what the code accepted forms a consistent format, (b) every answer equals the one implied by the listed elements, (c) format == builder, (d) a rejection left the table unchanged.",
+    "Trusted: TLC, Json, the table() projection and the Python mirror of the element pool (FBPools.tla). Pool: 4 options, 3 command options (with aliases), 6 arguments, 2 command names, 5 element lists. Order of option listings and repetition of aliased command options are A-clauses (DRIFT only).",
+    "DESIGN.md#C06",
+)
